@@ -21,7 +21,9 @@ RULE = ("ices {Antarctic, Arasim, Greenland, random (n0,k,a)} x endpoint pairs d
         "(shallow/shallow, deep/deep, across z_uniform, near-vertical incl. the K3 region, exactly vertical pairs "
         "(rho == 0, both orders), an endpoint exactly on the top / bottom of the valid range or on z_uniform, equal "
         "depths, within 1% of direct_r_max / indirect_r_max, source above / below receiver) x dz in {0.1,1,5} x "
-        "{SpecializedRayTracer, BasicRayTracer}; plus formula-level requests (z, beta, deep) for the three "
+        "{SpecializedRayTracer, BasicRayTracer} x endpoint containers {tuple, list, float ndarray, int ndarray} x "
+        "caller-side reuse of the endpoint buffers {none, overwritten in place right after construction, overwritten "
+        "after `solutions` was read and before any path property is}; plus formula-level requests (z, beta, deep) for the three "
         "closed forms in all three branches and tracer-level requests (r functions at random angles, angle "
         "conversion, expected_solutions); non-trivial = the tracer returned a solution or the formula request "
         "has gamma>0; distinct = distinct (ice, endpoints, tracer, dz, solution) / (ice, op, arguments) tuples")
@@ -55,7 +57,9 @@ LEVEL_NOTE = ("floating-point rounding is not modelled (tolerance run; the ampli
               "like everywhere else); known "
               "findings K7 (BasicRayTracer._indirect_r jumps when a trapezoid leg changes its cell count), K8 "
               "(SpecializedRayTracer link_range interpolation next to max_angle) are recorded, their input classes are "
-              "recognised from the implementation alone and any miss outside them is a violation; not claimed: depths "
+              "recognised from the implementation alone and any miss outside them is a violation; state across calls: a tracer/path "
+              "must answer for the endpoints it was constructed with (compared with a tracer built from private copies "
+              "and with RK4 from the original source) and must not write into the caller's buffers; not claimed: depths "
               "where n(z) is indistinguishable from n0 in double precision (n0-n < 1e-13 n0; the Specialized tracer "
               "raises ValueError there) and BasicRayTracer with |z_from - z_to| < dz (returns no solutions)")
 ASSUMPTIONS = ["scipy.optimize.brentq terminates; its result is only used after the certificate check",
@@ -217,13 +221,90 @@ def tracer_classes():
     return {"specialized": rt.SpecializedRayTracer, "basic": rt.BasicRayTracer}
 
 
-def solve(tname, A, B, ice, dz):
-    """run the implementation; -> (tracer, [paths]) ; exceptions are returned as (tracer, exc)"""
+CONTAINERS = ["tuple", "ndarray", "ndarray", "list", "intarray"]
+ALIAS_MODES = [None, "after_init", "after_solutions"]
+
+
+def make_container(kind, P):
+    if kind == "ndarray":
+        return np.array(P, dtype=float)
+    if kind == "intarray":
+        return np.array([int(round(v)) for v in P], dtype=int)
+    if kind == "list":
+        return [float(v) for v in P]
+    return tuple(float(v) for v in P)
+
+
+def scramble(buf, P):
+    """what a caller recycling one position buffer does: overwrite it in place with another point in the ice"""
+    new = (P[0] + 13, P[1] - 7, min(0.5 * P[2] - 1, -1))
+    if isinstance(buf, tuple):
+        return
+    for i in range(3):
+        buf[i] = int(new[i]) if isinstance(buf, np.ndarray) and buf.dtype.kind == "i" else new[i]
+
+
+def solve(tname, A, B, ice, dz, alias=None, container="tuple"):
+    """run the implementation; -> (tracer, [paths], (from_buffer, to_buffer)).
+    `container`: how the endpoints are handed over (tuple / list / float ndarray / int ndarray);
+    `alias`: None, or the moment at which the harness overwrites the caller-side buffers in place -
+    'after_init' (before anything is evaluated) or 'after_solutions' (after `solutions` was read, before any
+    path property is).  The tracer's answers must be those of the endpoints it was constructed with."""
     cls = tracer_classes()[tname]
-    t = cls(A, B, ice, dz=dz)
+    bufs = (make_container(container, A), make_container(container, B))
+    t = cls(bufs[0], bufs[1], ice, dz=dz)
+    if alias == "after_init":
+        scramble(bufs[0], A)
+        scramble(bufs[1], B)
     with np.errstate(all="ignore"):
         sols = list(t.solutions)
-    return t, sols
+    if alias == "after_solutions":
+        scramble(bufs[0], A)
+        scramble(bufs[1], B)
+    return t, sols, bufs
+
+
+def alias_check(run, inp0, t, sols, bufs, A, B, alias, container, ref):
+    """state kept across calls: the tracer and its paths answer for the endpoints they were constructed with,
+    whatever the caller does to its own buffers afterwards, and they never write into the caller's buffers.
+    `ref` = (tracer, paths) built from private copies.  -> True when everything is as it must be"""
+    A0, B0 = np.array(A, dtype=float), np.array(B, dtype=float)
+    objs = [("tracer", t)] + [("solutions[%d]" % i, p) for i, p in enumerate(sols)]
+    for nm, o in objs:
+        if not (np.array_equal(np.asarray(o.from_point, dtype=float), A0)
+                and np.array_equal(np.asarray(o.to_point, dtype=float), B0)):
+            run.fail_input("aliasing", inp0, observed={"object": nm, "from_point": list(map(float, o.from_point)),
+                                                       "to_point": list(map(float, o.to_point))},
+                           expected={"from_point": list(A0), "to_point": list(B0)},
+                           what="%s no longer holds the endpoints it was constructed with after the caller "
+                                "overwrote its own %s buffers (%s)" % (nm, container, alias))
+            return False
+    if alias is None and container != "tuple":
+        if not (np.array_equal(np.asarray(bufs[0], dtype=float), A0)
+                and np.array_equal(np.asarray(bufs[1], dtype=float), B0)):
+            run.fail_input("caller-buffer-modified", inp0, observed=[list(map(float, b)) for b in bufs],
+                           expected=[list(A0), list(B0)], what="the tracer wrote into the caller's endpoint buffers")
+            return False
+    if ref is not None:
+        t_ref, sols_ref = ref
+        if len(sols) != len(sols_ref):
+            run.fail_input("aliasing", inp0, observed=len(sols), expected=len(sols_ref),
+                           what="number of solutions differs from a tracer built from private copies of the endpoints")
+            return False
+        for i, (p, q) in enumerate(zip(sols, sols_ref)):
+            with np.errstate(all="ignore"):
+                got = [float(p.theta0), float(p.path_length), float(p.tof)] + list(map(float, p.emitted_direction)) \
+                    + list(map(float, p.received_direction)) + [float(p.beta), float(p.z_turn)]
+                exp = [float(q.theta0), float(q.path_length), float(q.tof)] + list(map(float, q.emitted_direction)) \
+                    + list(map(float, q.received_direction)) + [float(q.beta), float(q.z_turn)]
+            if not fw.all_close(got, exp, 1e-12, 1e-15) or bool(p.direct) != bool(q.direct):
+                run.fail_input("aliasing", inp0,
+                               observed={"solution": i, "theta0,len,tof,emitted,received,beta,z_turn": got},
+                               expected={"from_private_copies": exp},
+                               what="path properties read after the caller overwrote its endpoint buffers (%s, %s) "
+                                    "differ from those of a tracer built from private copies" % (container, alias))
+                return False
+    return True
 
 
 # ------------------------------------------------------------------------------------------------
@@ -725,10 +806,15 @@ def correspondence(run):
         add(formula_requests(run, name, ice))
 
     sols_info = []
+    n_corr_cases = 0
     for name, ice, cname, zf, zt, rho, tname, dz in case_list(run, 15, 120, 3):
         A, B = endpoints(run, zf, zt, rho)
+        n_corr_cases += 1
+        alias = "after_solutions" if n_corr_cases % 4 == 0 else None
+        container = "ndarray" if n_corr_cases % 2 == 0 else "tuple"
+        run.count("corr_container_%s_alias_%s" % (container, alias))
         try:
-            t, sols = solve(tname, A, B, ice, dz)
+            t, sols, bufs = solve(tname, A, B, ice, dz, alias=alias, container=container)
         except Exception as e:  # a crash on valid input is reported by the search, not here
             run.count("impl_exception_" + type(e).__name__)
             run.notes.append("implementation raised %s: %s for %s %s->%s dz=%s ice=%s"
@@ -1033,13 +1119,15 @@ def known_probes(run):
 
 # ------------------------------------------------------------------------------------------------
 # search: RK4 oracle on the implementation alone
-def check_solution(run, name, ice, cname, A, B, tname, dz, t, p, h):
+def check_solution(run, name, ice, cname, A, B, tname, dz, t, p, h, extra=None):
     zf, zt = float(A[2]), float(B[2])
     rho = float(t.rho)
     th = float(p.theta0)
     direct = bool(p.direct)
     inp = {"ice": ice_desc(name, ice), "from": list(map(float, A)), "to": list(map(float, B)), "tracer": tname,
            "dz": dz, "class": cname, "solution": "direct" if direct else "indirect", "theta0": th}
+    if extra:
+        inp.update(extra)
     k3 = tname == "specialized" and in_k3_class(ice, zf, zt, rho, direct)
     k7 = tname == "basic" and not direct and in_k7_class(ice, zf, zt, th, dz)
     k8 = tname == "specialized" and not direct and in_k8_class(ice, zf, zt, th)
@@ -1182,10 +1270,24 @@ def search(run, deep):
         if len([v for v in run.violations if not v[1]]) >= 5:
             break                      # enough concrete replays recorded
         A, B = endpoints(run, zf, zt, rho)
+        # how the endpoints are handed over, and whether the caller recycles its buffers afterwards
+        container = run.rng.choice(CONTAINERS)
+        alias = run.rng.choice(ALIAS_MODES) if container != "tuple" else None
+        if container == "intarray":
+            A = tuple(float(int(round(v))) for v in A)
+            B = tuple(float(int(round(v))) for v in B)
+            zf, zt = A[2], B[2]
+            rho = math.hypot(B[0] - A[0], B[1] - A[1])
+        extra = {"container": container, "alias": alias}
         inp0 = {"ice": ice_desc(name, ice), "from": list(map(float, A)), "to": list(map(float, B)),
                 "tracer": tname, "dz": dz, "class": cname}
+        inp0.update(extra)
+        run.count("search_container_%s_alias_%s" % (container, alias))
         try:
-            t, sols = solve(tname, A, B, ice, dz)
+            t, sols, bufs = solve(tname, A, B, ice, dz, alias=alias, container=container)
+            ref = None
+            if container != "tuple":
+                ref = solve(tname, A, B, ice, dz)[:2]
         except Exception as e:
             if isinstance(e, ValueError) and "NaN" in str(e):
                 # crash mode of the unchanged tree (brentq meets a NaN of the r function: alpha = 0 in
@@ -1201,6 +1303,9 @@ def search(run, deep):
         run.case((name, ice.n0, ice.k, ice.a, tname, dz, zf, zt, rho, "oracle"), nontrivial=len(sols) > 0)
         run.count("search_geom_%s" % cname)
         run.count("search_%s_nsol%d" % (tname, len(sols)))
+        alias_check(run, inp0, t, sols, bufs, A, B, alias, container, ref)
+        if ref is not None:
+            t = ref[0]            # geometry-dependent budgets / self-consistency from the private-copy tracer
         if len(sols) not in (0, 2):
             run.fail_input("solution-count", inp0, observed=len(sols), expected="0 or 2 solutions",
                            what="tracer returned %d solutions" % len(sols))
@@ -1212,7 +1317,7 @@ def search(run, deep):
                            what="direct/indirect flags of the solutions do not match expected_solutions")
             continue
         for p in sols:
-            check_solution(run, name, ice, cname, A, B, tname, dz, t, p, h)
+            check_solution(run, name, ice, cname, A, B, tname, dz, t, p, h, extra=extra)
         run.traces += len(sols)
         # oracle self-check in the deep tier: halving the RK4 step must not move the arrival point
         if deep and sols and run.rng.random() < 0.1:
@@ -1229,6 +1334,13 @@ def replay(run, data):
     inp = data["input"]
     ice = make_ice(inp["ice"])
     A, B = tuple(inp["from"]), tuple(inp["to"])
-    t, sols = solve(inp["tracer"], A, B, ice, inp["dz"])
+    container, alias = inp.get("container", "tuple"), inp.get("alias")
+    t, sols, bufs = solve(inp["tracer"], A, B, ice, inp["dz"], alias=alias, container=container)
+    ref = solve(inp["tracer"], A, B, ice, inp["dz"])[:2] if container != "tuple" else None
+    inp0 = {k: inp[k] for k in ("ice", "from", "to", "tracer", "dz", "class", "container", "alias") if k in inp}
+    alias_check(run, inp0, t, sols, bufs, A, B, alias, container, ref)
+    if ref is not None:
+        t = ref[0]
     for p in sols:
-        check_solution(run, inp["ice"][0], ice, inp.get("class", "replay"), A, B, inp["tracer"], inp["dz"], t, p, 0.25)
+        check_solution(run, inp["ice"][0], ice, inp.get("class", "replay"), A, B, inp["tracer"], inp["dz"], t, p, 0.25,
+                       extra={"container": container, "alias": alias})
